@@ -422,13 +422,23 @@ func (it *c10Interp) exec(f *ssa.Function, args []*cval, depth int) *cval {
 				case token.NOT:
 					env[x] = &cval{t: x.Type(), isB: true, b: !v.b, dep: v.dep}
 				case token.SUB:
-					if v.dep {
-						it.undec = "negation of the argument at " + it.c.pos(x.Pos())
-						return nil
-					}
-					out := &cval{t: x.Type(), isF: v.isF, f: -v.f}
+					// Negation is order-reversing and exact wherever the result is representable: a predicate built from it and a
+					// comparison with a constant still switches once over the source type, so the partition argument holds. Where
+					// the result is not representable (the minimum of a signed type) the value wraps: it is marked like a wrapped
+					// conversion, and comparing or returning it is reported.
+					out := &cval{t: x.Type(), isF: v.isF, f: -v.f, dep: v.dep, pure: v.pure, bad: v.bad}
 					if !v.isF {
 						out.i = new(big.Int).Neg(v.i)
+						if v.dep {
+							out = it.z.convert(out, x.Type())
+							if out == nil {
+								it.undec = "negation in an unsupported type at " + it.c.pos(x.Pos())
+								return nil
+							}
+							if out.bad == "wrapped" && v.bad == "" {
+								out.bad = "wrapped negation (the minimum of a signed type has no opposite)"
+							}
+						}
 					}
 					env[x] = out
 				default:
